@@ -21,18 +21,19 @@ RULE = ("pairs of models fitted on the same samples (n 20..40): two feature view
         "a sample isolated by A-B, a row whose recalibration exponent leaves [1/4,4], or identical operands.")
 
 
-def fit_model(X, k, metric, n_epochs):
-    return umap.UMAP(n_neighbors=k, metric=metric, n_epochs=n_epochs, init="random", random_state=1).fit(X)
+def fit_model(X, k, metric, n_epochs, disc=None):
+    return umap.UMAP(n_neighbors=k, metric=metric, n_epochs=n_epochs, init="random", random_state=1, disconnection_distance=disc).fit(X)
 
 
-def gen_pair(rng, npr):
+def gen_pair(rng, npr, force_kind=None):
     n = rng.randint(20, 40)
     d = rng.randint(4, 8)
     scale = 10 ** rng.uniform(-1, 2)
     nblob = rng.randint(1, 4)
     centers = npr.normal(size=(nblob, d)) * 3
     X = (centers[npr.randint(0, nblob, size=n)] + npr.normal(size=(n, d))) * scale
-    kind = rng.choice(["views", "views", "metrics", "neighbors", "twins", "noise"])
+    kind = rng.choice(["views", "views", "metrics", "neighbors", "twins", "noise", "iso_one"])
+    if force_kind: kind = force_kind
     ka, kb = rng.randint(3, 10), rng.randint(3, 10)
     ma = mb = "euclidean"
     fa = fb = list(range(d))
@@ -47,7 +48,11 @@ def gen_pair(rng, npr):
         kb = ka
     XA = X[:, fa]
     XB = X[:, fb] if kind != "noise" else X[:, fb] + npr.normal(size=(n, len(fb))) * scale
-    return dict(n=n, kind=kind, XA=XA, XB=XB, ka=ka, kb=kb, ma=ma, mb=mb, n_epochs=rng.randint(1, 4),
+    disc_a = None
+    if kind == "iso_one":      # one sample is an outlier of view A only and is cut off there by a disconnection distance: isolated in exactly one operand
+        XA = XA.copy(); Dn = np.sqrt(((XA[:, None] - XA[None]) ** 2).sum(-1)); far = float(np.sort(Dn, axis=1)[:, min(ka, n - 1)].max())
+        XA[0] = XA[0] + 50 * far; disc_a = 3 * far
+    return dict(n=n, kind=kind, XA=XA, XB=XB, ka=ka, kb=kb, ma=ma, mb=mb, disc_a=disc_a, n_epochs=rng.randint(1, 4),
                 w=rng.choice([0.5, 0.2, 0.8, 0.0, 1.0, round(rng.uniform(0.05, 0.95), 3)]))
 
 
@@ -126,7 +131,7 @@ def run_pair(ctx, case, rng, collect=True):
     n = case["n"]
     desc = {k: case[k] for k in ("n", "kind", "ka", "kb", "ma", "mb", "n_epochs", "w", "XA", "XB")}
     try:
-        A = fit_model(case["XA"], case["ka"], case["ma"], case["n_epochs"])
+        A = fit_model(case["XA"], case["ka"], case["ma"], case["n_epochs"], case.get("disc_a"))
         B = fit_model(case["XB"], case["kb"], case["mb"], case["n_epochs"])
     except Exception as e:
         ctx.fail("UMAP.fit:raises", "%s: %s" % (type(e).__name__, e), desc); return None
@@ -349,7 +354,7 @@ def run(ctx):
             out = run_pair(ctx, case, FixedOrder(order) if order else rng)
             ctx.count("corpus")
         else:
-            case = gen_pair(rng, npr)
+            case = gen_pair(rng, npr, "iso_one" if c in (len(corpus), len(corpus) + 1) else None)   # every run has pairs with a sample isolated in one operand only
             out = run_pair(ctx, case, rng)
         if out is not None:
             terms.append(out[0]); cases.append(out[1])
